@@ -37,12 +37,12 @@ Clauses == {
   "C07_FinishedKeepsResult", "C07_CancelEntryPointReturns",
   "C08_QueuedAtMostOnce", "C08_QueuedOnceWhenStarted", "C08_QueuedBeforeAnyRequest",
   "C08_NoQueuedIfCancelledBeforeStart", "C08_DoneAtMostOnce", "C08_DoneExactlyOnceAtEnd",
-  "C08_DoneAfterFinalAndQuiet", "C08_NoProgressAfterDoneBegan",
+  "C08_DoneAfterFinalAndQuiet", "C08_NoProgressAfterDoneBegan", "C08_NoQueuedAfterDoneBegan",
   "C08_ProvidedSizeSuppressesHead", "C08_OutcomeFinalAtDone",
   "C09_RunningSumWithinBounds", "C09_SumEqualsSizeAtSuccess",
   "C10_RequestsInFlightLeR", "C10_HeadsInFlightLeS", "C10_OneWriterPerDest",
   "C10_StageOccupancy", "C10_RequestThreadsLeR",
-  "C11_UploadBuffers", "C11_DownloadWindow", "C11_IoQueue",
+  "C11_UploadBuffers", "C11_DownloadWindow", "C11_IoQueue", "C11_BufferSize",
   "C12_AllPermitsReturned",
   "C14_MultipartIffGeThreshold", "C14_DownloadRangesTile",
   "C16_StreamInOrderExactlyOnce",
@@ -139,6 +139,8 @@ Holds(c, o) ==
                               /\ xr.afterDone \cap {"s3", "fs", "write"} = {})
     [] c = "C08_NoProgressAfterDoneBegan" ->
          AllX(o, LAMBDA xr : "progress" \notin xr.afterDone)
+    [] c = "C08_NoQueuedAfterDoneBegan" ->
+         AllX(o, LAMBDA xr : "queued" \notin xr.afterDone)
     [] c = "C08_ProvidedSizeSuppressesHead" ->
          AllX(o, LAMBDA xr : xr.provide => ~xr.headSeen)
     [] c = "C08_OutcomeFinalAtDone" ->
@@ -158,8 +160,9 @@ Holds(c, o) ==
 
     [] c = "C11_UploadBuffers" -> "C11_UploadBuffers" \notin o.memBad
     [] c = "C11_DownloadWindow" -> "C11_DownloadWindow" \notin o.memBad
-    [] c = "C11_IoQueue" -> "io" \notin o.occBad /\ AllX(o, LAMBDA xr : ~xr.wbig)
+    [] c = "C11_IoQueue" -> "io" \notin o.occBad /\ ~o.ioWriteBig /\ AllX(o, LAMBDA xr : ~xr.wbig)
 
+    [] c = "C11_BufferSize" -> AllX(o, LAMBDA xr : ~xr.bigPart)
     [] c = "C12_AllPermitsReturned" -> (o.ended /\ o.stuck = "") => ~o.permsBad
 
     [] c = "C14_MultipartIffGeThreshold" ->
